@@ -587,6 +587,10 @@ pub fn dispatch(a: &Args, replay: Option<(Vec<String>, String)>) -> ! {
         ($t:ty) => {{
             let s: SSys<$t> = SSys { lo, hi, scale, ranges, emax: a.num("emax", 2) as u8, tmax: a.num("t", 2) as u8, pop: a.num("pop", 2) as usize, f, prop: a.prop(), inj_budget: a.num("inject", 0) as u32, _p: PhantomData };
             match &replay {
+                None if a.cmd == "family" => {
+                    let nr = s.ranges.len();
+                    crate::run_family(s, a, crate::family::s_histories(nr))
+                }
                 None => run_bfs(s, a),
                 Some((h, sig)) => run_replay(s, a, h, sig),
             }
